@@ -5,6 +5,7 @@ package c20
 
 import (
 	"bytes"
+	"encoding/json"
 	"fmt"
 	"os"
 	"runtime/debug"
@@ -34,17 +35,17 @@ type info struct {
 	rejected string
 	shapes   []string
 	changed  bool // the first pass changed the text
-	excluded string // steered away from a listed finding that would kill the process
 	xgo      []string
 	edges    map[string]bool
 	hash     uint64
 }
 
-// cls builds the verdict class: a source that shows the shape of a listed finding fails as
-// "<kind>/<shape>", any other source as "<kind>" or "<kind>:<signature>".
+// cls builds the verdict class: a source that shows the shape of a listed finding (fmtin.Shapes)
+// fails as "shape/<shape>" whatever the kind of failure, any other source as "<kind>" or
+// "<kind>:<signature>".
 func (in info) cls(kind, sig string) string {
 	if len(in.shapes) > 0 {
-		return kind + "/" + in.shapes[0]
+		return "shape/" + in.shapes[0]
 	}
 	if sig != "" {
 		return kind + ":" + sig
@@ -65,10 +66,6 @@ func check(c Case) (v *vk.Verdict, in info) {
 	}
 	xgo, edges := fmtin.Features(f1)
 	in.xgo, in.edges = fmtin.Keys(xgo), edges
-	if fmtin.OneLineForPhrase(f1, fset1) {
-		in.excluded = "crash-oneline-forphrase"
-		return nil, in
-	}
 	in.shapes = fmtin.Shapes(f1, fset1, c.Src)
 	out, err := format.Source(c.Src, c.Class)
 	if err != nil {
@@ -118,14 +115,16 @@ var (
 )
 
 func run(t failer, c Case, labels ...string) {
-	v, in := check(c)
-	if in.rejected != "" {
-		vk.R.Rejected(in.rejected)
+	// the one shape that ends the process (log.Fatalf in the printer) cannot be evaluated in-process:
+	// it is steered away from here and kept as an isolated regress file
+	if f, fset, err := fmtin.Parse(c.Src, c.Class); err == nil && fmtin.OneLineForPhrase(f, fset) {
+		vk.R.Excluded("crash")
 		vk.R.Case(false, "")
 		return
 	}
-	if in.excluded != "" {
-		vk.R.Excluded(in.excluded)
+	v, in := check(c)
+	if in.rejected != "" {
+		vk.R.Rejected(in.rejected)
 		vk.R.Case(false, "")
 		return
 	}
@@ -144,6 +143,13 @@ func run(t failer, c Case, labels ...string) {
 			surveyN[v.Class+"|"+strings.Join(c.How[:1], "")+"|"+fmt.Sprint(len(c.How) > 1 && strings.Contains(strings.Join(c.How, " "), " perturb"))]++
 			surveyMu.Unlock()
 			vk.R.Class("FAIL " + v.Class)
+			if n == 1 {
+				m := minimise(c, v.Class)
+				if dir := os.Getenv("FMT_DUMP"); dir != "" {
+					js, _ := json.MarshalIndent(map[string]any{"property": "C20", "test": "fmt-twice", "case": m, "note": v.Class}, "", " ")
+					os.WriteFile(dir+"/"+strings.NewReplacer("/", "_", ":", "_").Replace(v.Class)+".json", js, 0o644)
+				}
+			}
 			if n <= 3 {
 				m := minimise(c, v.Class)
 				mv, _ := check(m)
@@ -199,10 +205,11 @@ func TestCorpus(t *testing.T) {
 
 func TestVariants(t *testing.T) {
 	vk.R.Rapid(t, 1, 3000, 80000, func(t *rapid.T) {
-		// the layout of machine-made junk (xgotext) is only perturbed with blanks: breaking its lines at
-		// arbitrary token boundaries gives an open-ended tail of alignment effects that no closed
-		// catalogue of shapes covers (DESIGN section 3); real sources and typed programs get all of it
-		pol := fmtin.Policy{BlanksOnly: func(origin string) bool { return strings.HasPrefix(origin, "xgotext") }}
+		// Layout perturbations keep every line break where it is (blank lines, indentation and spacing
+		// vary): which lines a construct is broken over is input to the printer's layout decisions, and
+		// breaking lines at arbitrary token boundaries gives an open-ended tail of alignment effects
+		// (also in plain Go code) that no closed catalogue of shapes covers (DESIGN section 3).
+		pol := fmtin.Policy{KeepLines: true}
 		if os.Getenv("FMT_NOSHARP") != "" {
 			pol.Conv = func(c fmtin.ConvClass) bool { return c.Style != "#" }
 		}
